@@ -734,7 +734,13 @@ def move_and_revalidate(ctx, desc, topo, suffix):
     elif obs2 == 'crash' and exp2 == 'reject':
         ctx.count('revalidate:invalid-slice-rejected-by-other-exception')
     else:
-        ctx.violation(f'C10/verdict-after-moving-a-node-differs:{exp2}->{obs2}' + suffix,
+        key = f'C10/verdict-after-moving-a-node-differs:{exp2}->{obs2}' + suffix
+        if exp2 == 'reject' and obs2 == 'accept':
+            # the same mechanism keys as for a first validation (a known finding stays the known finding)
+            keyed = [accepted_key(f, d2, {'nodes': {}}, bool(suffix)) for f in res2['failures']]
+            if keyed and all(specific for _, specific in keyed):
+                key = keyed[0][0]
+        ctx.violation(key,
                       'validate() succeeds iff every constraint is met by the slice as it is now (a node was moved to another site '
                       'after an earlier validation)',
                       {'description': short(d2), 'moved': nd['name'], 'to': new_site, 'expected': exp2, 'observed': obs2,
